@@ -1,5 +1,6 @@
 """C02 - value <-> bits round trip and canonical encoding for every fixed dtype, through every creation/reading route."""
 import math
+import struct
 
 from hypothesis import strategies as st
 
@@ -161,10 +162,21 @@ def create_case(draw, tier):
     n = draw(codecs.length_for(name, 300))
     c = canon(name)
     if c in ('float', 'floatle') and n in (16, 32) and draw(st.integers(0, 3)) == 0:
-        # a double that is not exactly representable in the narrower format but within struct's range
-        v = codecs.decode('float', draw(codecs.pattern(64)))
-        lim = 65000.0 if n == 16 else 3.0e38
-        if math.isnan(v) or math.isinf(v) or abs(v) > lim:
+        # a double that is not exactly representable in the narrower format; in range = struct can pack it (the statement's reference)
+        if draw(st.booleans()):
+            v = codecs.decode('float', draw(codecs.pattern(64)))
+        else:
+            # between two neighbouring representable values: rounding midpoints, and the zone just above the largest finite value
+            r = codecs.decode('float', draw(codecs.pattern(n)))
+            if math.isnan(r) or math.isinf(r):
+                r = 65504.0 if n == 16 else float.fromhex('0x1.fffffep+127')
+            p, min_exp = (11, -24) if n == 16 else (24, -149)
+            ulp = 2.0 ** max(math.frexp(abs(r))[1] - p, min_exp) if r else 2.0 ** min_exp
+            frac = draw(st.sampled_from([0.5, 0.25, 0.75, 0.5 - 2.0 ** -20, 0.5 + 2.0 ** -20, 0.999, 0.001, 1 - 2.0 ** -30, 0.4999, 2.0 ** -25]))
+            v = r + math.copysign(ulp * frac, r if r else draw(st.sampled_from([1.0, -1.0])))
+        try:
+            struct.pack('>e' if n == 16 else '>f', v)
+        except (OverflowError, struct.error):
             v = draw(codecs.value_for(name, n))
     elif c in ('float', 'floatle', 'bfloat', 'bfloatle') and draw(st.integers(0, 9)) == 0:
         v = float(draw(st.integers(-100, 100)))
